@@ -389,6 +389,9 @@ def showLOut : LOut → String
 
 def places : List String := ["global", "closure", "list", "vector", "mvector", "hashmap", "box", "struct"]
 
+/-- copies stored in a box / mutable vector (collected heap): they cannot be dropped at a definite point -/
+abbrev Sticky := List (Nat × Nat)
+
 def lendLine (pol : Policy) (s : LState) (toks : List String) : LState × String :=
   let run (op : Op) : LState × String :=
     let (s', o) := lstep pol s op
@@ -426,27 +429,49 @@ def lendLine (pol : Policy) (s : LState) (toks : List String) : LState × String
     | _, _ => (s, "bad parse")
   | _ => (s, "bad op")
 
-def processLine (pol : Policy) (s : LState) (l : String) : LState × Option String :=
+def lendLineS (pol : Policy) (st : LState × Sticky) (toks : List String) : (LState × Sticky) × String :=
+  let (s, sticky) := st
+  match toks with
+  | ["drop", h, c] =>
+    match parseHC h c with
+    | some hc =>
+      if sticky.contains hc && ((s.handles[hc.1]?).map (fun hd => hd.copies.contains hc.2)).getD false then
+        (st, "bad sticky")
+      else let (s', o) := lendLine pol s toks; ((s', sticky), o)
+    | none => (st, "bad parse")
+  | ["copy", h, _, place] =>
+    let (s', o) := lendLine pol s toks
+    let sticky' :=
+      if (place == "box" || place == "mvector") && o.startsWith "ok c" then
+        match (h.drop 1).toNat?, (((o.splitOn " | ").headD "").drop 4).toNat? with
+        | some hh, some cc => (hh, cc) :: sticky
+        | _, _ => sticky
+      else sticky
+    ((s', sticky'), o)
+  | _ => let (s', o) := lendLine pol s toks; ((s', sticky), o)
+
+def processLine (pol : Policy) (st : LState × Sticky) (l : String) : (LState × Sticky) × Option String :=
+  let s := st.1
   let toks := (l.trimAscii.toString.splitOn " ").filter (· ≠ "")
   match toks with
-  | [] => (s, none)
+  | [] => (st, none)
   | op :: rest =>
-    if op.startsWith "#" then (s, none)
+    if op.startsWith "#" then (st, none)
     else match op with
-    | "reset" => if s.frames.isEmpty then ({}, some "reset") else (s, some "bad in-call")
+    | "reset" => if s.frames.isEmpty then (({}, []), some "reset") else (st, some "bad in-call")
     | "into" | "roundtrip" | "intofrom" | "from" =>
       match rest with
-      | [ty, v] => (s, some (convLine op ty v))
-      | _ => (s, some "bad parse")
+      | [ty, v] => (st, some (convLine op ty v))
+      | _ => (st, some "bad parse")
     | "fromsrc" =>
       match rest with
-      | ty :: n :: _ :: _ => (s, some (convLine "from" ty ("lit:" ++ n)))
-      | _ => (s, some "bad parse")
+      | ty :: n :: _ :: _ => (st, some (convLine "from" ty ("lit:" ++ n)))
+      | _ => (st, some "bad parse")
     | "call" =>
       match rest with
-      | shape :: args => (s, some (callLine shape args))
-      | _ => (s, some "bad parse")
-    | _ => let (s', o) := lendLine pol s toks; (s', some o)
+      | shape :: args => (st, some (callLine shape args))
+      | _ => (st, some "bad parse")
+    | _ => let (st', o) := lendLineS pol st toks; (st', some o)
 
 
 /-! ## lending-script generation from the model's own state (every choice from one LCG state) -/
@@ -462,10 +487,10 @@ def liveCopies (s : LState) : List (Nat × Nat) :=
 
 def genScript (seed : UInt64) (len : Nat) : List String × UInt64 := Id.run do
   let mut rng := seed
-  let mut s : LState := {}
+  let mut st : LState × Sticky := ({}, [])
   let mut out : List String := ["reset"]
-  let emit (s : LState) (l : String) : LState :=
-    (lendLine .asFound s ((l.splitOn " ").filter (· ≠ ""))).1
+  let emit (st : LState × Sticky) (l : String) : LState × Sticky :=
+    (lendLineS .asFound st ((l.splitOn " ").filter (· ≠ ""))).1
   -- first call
   let (k0, r0) := pick rng 4
   rng := r0
@@ -506,7 +531,7 @@ def genScript (seed : UInt64) (len : Nat) : List String × UInt64 := Id.run do
   out := "end" :: out
   return (out.reverse, rng)
 
-partial def loop (pol : Policy) (h : IO.FS.Stream) (s : LState) : IO Unit := do
+partial def loop (pol : Policy) (h : IO.FS.Stream) (s : LState × Sticky) : IO Unit := do
   let l ← h.getLine
   if l.isEmpty then return ()
   let (s', out) := processLine pol s l
@@ -528,7 +553,7 @@ def mainC20 (args : List String) : IO Unit := do
     return ()
   | _ => pure ()
   let pol := if args.contains "tomark" then Policy.toMark else Policy.asFound
-  loop pol (← IO.getStdin) {}
+  loop pol (← IO.getStdin) ({}, [])
 
 end SteelVerif.C20
 
